@@ -79,29 +79,33 @@ def srvParseCommand (line : Str) : Str × Str :=
 
 /-! ### PWD -/
 
-/-- `f'"{connection.current_directory}"'` -/
-def fmtPwd (cwd : PPath) : Str := ['"'] ++ cwd.str ++ ['"']
+/-- `s.replace('"', '""')` -/
+def doubleQuotes (s : Str) : Str := s.flatMap (fun c => if c = '"' then ['"', '"'] else [c])
+
+/-- `directory = str(connection.current_directory).replace('"', '""'); f'"{directory}"'`
+    (whether the `replace` is there is read off the source: `Generated.pwdDoublesQuotes`) -/
+def fmtPwd (cwd : PPath) : Str :=
+  ['"'] ++ (if Generated.pwdDoublesQuotes then doubleQuotes cwd.str else cwd.str) ++ ['"']
 
 /-- a single-line reply `code + " " + text + "\r\n"` as `Client.parse_line` hands it on:
     `s = line.rstrip(); return Code(s[:3]), s[3:]` — this is `info[-1]` -/
 def replyRest (code text : Str) : Str :=
   (rstrip (code ++ ' ' :: text ++ END_OF_LINE)).drop 3
 
-/-- the loop of `parse_directory_response` (state: seq_quotes, start, directory); `break` returns -/
-def pdrLoop : Str → Nat → Bool → Str → Str
+/-- the loop of `parse_directory_response` (state: start, quote = "the previous character was a quote not yet
+    accounted for", directory); `break` returns -/
+def pdrLoop : Str → Bool → Bool → Str → Str
   | [], _, _, dir => dir
-  | ch :: rest, seq, start, dir =>
+  | ch :: rest, start, quote, dir =>
     if !start then
-      if ch = '"' then pdrLoop rest seq true dir else pdrLoop rest seq start dir
-    else
-      if ch = '"' then pdrLoop rest (seq + 1) start dir
-      else
-        if seq = 1 then dir
-        else if seq = 2 then pdrLoop rest 0 start (dir ++ ['"'] ++ [ch])
-        else pdrLoop rest seq start (dir ++ [ch])
+      if ch = '"' then pdrLoop rest true quote dir else pdrLoop rest start quote dir
+    else if quote then
+      if ch ≠ '"' then dir else pdrLoop rest start false (dir ++ [ch])
+    else if ch = '"' then pdrLoop rest start true dir
+    else pdrLoop rest start quote (dir ++ [ch])
 
 /-- `Client.parse_directory_response(s)` -/
-def parseDirectoryResponse (s : Str) : PPath := PPath.parse (pdrLoop s 0 false [])
+def parseDirectoryResponse (s : Str) : PPath := PPath.parse (pdrLoop s false false [])
 
 /-- `Client.get_current_directory()` against a server whose cwd is `cwd` -/
 def pwdSeenByClient (cwd : PPath) : PPath :=
